@@ -61,6 +61,9 @@ def source(c):
             return SUPPORT + f'#[typeshare(serialized_as = "{t}")]\npub struct Host {{ inner: Opaque }}\n'
     item = {
         "multi_tuple_struct": "#[typeshare]\npub struct Host(u32, String);\n",
+        "multi_tuple_struct_one_kept": "#[typeshare]\npub struct Host(String, #[serde(skip)] u32);\n",
+        "multi_tuple_struct_one_kept_ts": "#[typeshare]\npub struct Host(#[typeshare(skip)] u32, String, #[serde(skip)] bool);\n",
+        "multi_tuple_variant_one_kept": f'#[typeshare]\n#[serde(tag = "t", content = "c")]\npub enum Host {{\n    Keep(u32),\n    {sk}\n    Bad(#[typeshare(skip)] u32, String),\n}}\n',
         "multi_tuple_variant": f'#[typeshare]\n#[serde(tag = "t", content = "c")]\npub enum Host {{\n    Keep(u32),\n    {sk}\n    Bad(u32, String),\n}}\n',
         "flatten_field": f"#[typeshare]\npub struct Host {{\n    pub keep: u32,\n    {sk}\n    #[serde(flatten)]\n    pub bad: Fine,\n}}\n",
         "flatten_vfield": f'#[typeshare]\n#[serde(tag = "t", content = "c")]\npub enum Host {{\n    Keep(u32),\n    Sv {{\n        keep: u32,\n        {sk}\n        #[serde(flatten)]\n        bad: Fine,\n    }},\n}}\n',
